@@ -85,36 +85,318 @@ theorem castNode_sound (lhsT : TyId) (rhs n : Node) (w : List String)
   · exact Or.inr (Or.inl ⟨h2.1, h2.2.2.1, h2.2.2.2⟩)
   · exact Or.inr (Or.inr ⟨h3.1, h3.2.2⟩)
 
-/-- a candidate is considered only if it is accessible and its name equals the destination
-field's name under the method's case rule: any other candidate leaves the pass untouched -/
-theorem handler_ignores_other_names (rec : Node → Node → Outcome (List Stmt)) (lhs rhsStruct cand : Node)
-    (st : BCtx.Pass)
-    (h : (ctx.accessible rhsStruct cand.objName && ctx.opts.compareFieldName lhs.objName cand.objName) = false) :
-    ctx.handler rec lhs rhsStruct st cand = .ok st := by
-  unfold BCtx.handler
-  by_cases hd : st.done = true
-  · simp [hd, pure]
-  · have : (!ctx.accessible rhsStruct cand.objName || !ctx.opts.compareFieldName lhs.objName cand.objName) = true := by
-      cases ha : ctx.accessible rhsStruct cand.objName <;> cases hb : ctx.opts.compareFieldName lhs.objName cand.objName <;>
-        simp_all
-    simp [hd, this, pure]
+/-- **completeness of `castNode`**: it refuses only when the candidate's type is not assignable, the
+`String()` route is closed (not opted in, or not applicable) and the conversion route is closed (not
+opted in, or the types are not convertible) -/
+theorem castNode_none (lhsT : TyId) (rhs : Node) (w : List String) (h : ctx.castNode lhsT rhs = .ok (none, w)) :
+    ctx.env.assignable (rhs.exprType ctx.env) lhsT = false ∧
+    (ctx.opts.stringer && ctx.env.assignable ctx.env.stringTy lhsT &&
+        ctx.env.compliesStringer (rhs.exprType ctx.env)) = false ∧
+    ((ctx.opts.typecast && ctx.env.convertible (rhs.exprType ctx.env) lhsT) = false ∨
+      ctx.newTypecast lhsT rhs = .ok none) := by
+  unfold BCtx.castNode at h
+  simp only at h
+  by_cases ha : ctx.env.assignable (rhs.exprType ctx.env) lhsT = true
+  · simp only [ha, ↓reduceIte] at h; cases h
+  · simp only [ha, Bool.false_eq_true, ↓reduceIte] at h
+    by_cases hs : (ctx.opts.stringer && ctx.env.assignable ctx.env.stringTy lhsT &&
+        ctx.env.compliesStringer (rhs.exprType ctx.env)) = true
+    · simp only [hs, ↓reduceIte] at h; cases h
+    · simp only [hs, Bool.false_eq_true, ↓reduceIte] at h
+      refine ⟨by simpa using ha, by simpa using hs, ?_⟩
+      by_cases ht : (ctx.opts.typecast && ctx.env.convertible (rhs.exprType ctx.env) lhsT) = true
+      · simp only [ht, ↓reduceIte] at h
+        right
+        cases hnt : ctx.newTypecast lhsT rhs with
+        | ok c? =>
+          cases c? with
+          | some c => simp only [hnt] at h; cases h
+          | none => rfl
+        | error e => simp only [hnt] at h; cases h
+        | panic p => simp only [hnt] at h; cases h
+      · left; simpa using ht
 
-/-- **T4.3.** With `:match none` and getters off nothing is matched by name: the field is reported
-`no match` (or the builder crashes printing the warning — never an assignment). -/
-theorem match_none_no_name_match (rec : Node → Node → Outcome (List Stmt)) (lhs rhsStruct : Node) (s : Stmt)
-    (hr : ctx.opts.rule ≠ .name) (hg : ctx.opts.getter = false)
-    (h : ctx.fieldDefault rec lhs rhsStruct = .ok s) : ∃ w, s = .noMatch lhs w := by
-  unfold BCtx.fieldDefault at h
+/-- an assignable candidate is always taken as it is -/
+theorem castNode_assignable (lhsT : TyId) (rhs : Node)
+    (h : ctx.env.assignable (rhs.exprType ctx.env) lhsT = true) : ctx.castNode lhsT rhs = .ok (some rhs, []) := by
+  unfold BCtx.castNode
+  simp [h]
+
+/-! ## one candidate -/
+
+/-- a candidate is considered only if it is accessible and its name equals the destination
+field's name under the method's case rule: any other candidate yields nothing -/
+theorem tryCand_ignores_other_names (rec : Node → Node → Outcome (List Stmt)) (lhs rhsStruct cand : Node)
+    (warns : List String)
+    (h : (ctx.accessible rhsStruct cand.objName && ctx.opts.compareFieldName lhs.objName cand.objName) = false) :
+    ctx.tryCand rec lhs rhsStruct warns cand = .ok (none, warns) := by
+  unfold BCtx.tryCand
+  have : (!ctx.accessible rhsStruct cand.objName || !ctx.opts.compareFieldName lhs.objName cand.objName) = true := by
+    cases ha : ctx.accessible rhsStruct cand.objName <;> cases hb : ctx.opts.compareFieldName lhs.objName cand.objName <;>
+      simp_all
+  simp [this, pure]
+
+/-- the statement forms the default matcher can make from candidate `cand` -/
+inductive FromCand (rec : Node → Node → Outcome (List Stmt)) (lhs cand : Node) : Stmt → Prop
+  | slice {s} : ctx.env.isSliceType (lhs.exprType ctx.env) = true → ctx.env.isSliceType (cand.exprType ctx.env) = true →
+      ctx.sliceToSlice lhs cand = .ok (some s) → FromCand rec lhs cand s
+  | direct {n w w'} : ctx.castNode (lhs.exprType ctx.env) cand = .ok (some n, w) →
+      FromCand rec lhs cand (.simple lhs (.node n) n.returnsError w')
+  | nested {i nc body w w'} : ctx.castNode (lhs.exprType ctx.env) cand = .ok (none, w) →
+      ctx.env.isStructType (lhs.exprType ctx.env) = true → ctx.env.isStructType (cand.exprType ctx.env) = true →
+      rec lhs cand = .ok body → body ≠ [] → FromCand rec lhs cand (.nest lhs cand i nc body w')
+
+/-- **soundness of one candidate**: a statement comes only from an accessible candidate of the same
+name (under the case rule), and it is a slice copy, the candidate after `castNode` (so: assignable,
+or an opted-in conversion — `castNode_cases`), or a member-by-member block of two struct types -/
+theorem tryCand_some (rec : Node → Node → Outcome (List Stmt)) (lhs rhsStruct cand : Node) (warns w' : List String)
+    (s : Stmt) (h : ctx.tryCand rec lhs rhsStruct warns cand = .ok (some s, w')) :
+    ctx.accessible rhsStruct cand.objName = true ∧ ctx.opts.compareFieldName lhs.objName cand.objName = true ∧
+      FromCand ctx rec lhs cand s := by
+  unfold BCtx.tryCand at h
+  simp only [bind, Outcome.bind, pure] at h
+  split at h
+  · cases h
+  · rename_i hacc
+    have hacc' : ctx.accessible rhsStruct cand.objName = true ∧
+        ctx.opts.compareFieldName lhs.objName cand.objName = true := by
+      cases ha : ctx.accessible rhsStruct cand.objName <;>
+        cases hb : ctx.opts.compareFieldName lhs.objName cand.objName <;> simp_all
+    refine ⟨hacc'.1, hacc'.2, ?_⟩
+    cases hsl : (if ctx.env.isSliceType (lhs.exprType ctx.env) && ctx.env.isSliceType (cand.exprType ctx.env)
+        then ctx.sliceToSlice lhs cand else Outcome.ok none) with
+    | error e => simp only [hsl] at h; cases h
+    | panic p => simp only [hsl] at h; cases h
+    | ok sl =>
+      simp only [hsl] at h
+      cases sl with
+      | some s0 =>
+        simp only at h
+        cases h
+        split at hsl
+        · rename_i hboth
+          simp only [Bool.and_eq_true] at hboth
+          exact FromCand.slice hboth.1 hboth.2 hsl
+        · cases hsl
+      | none =>
+        simp only at h
+        cases hc : ctx.castNode (lhs.exprType ctx.env) cand with
+        | error e => simp only [hc] at h; cases h
+        | panic p => simp only [hc] at h; cases h
+        | ok r =>
+          obtain ⟨c?, w⟩ := r
+          simp only [hc] at h
+          cases c? with
+          | some c =>
+            simp only at h
+            cases h
+            exact FromCand.direct hc
+          | none =>
+            simp only at h
+            split at h
+            · rename_i hst
+              simp only [Bool.and_eq_true] at hst
+              cases hr : rec lhs cand with
+              | error e => simp only [hr] at h; cases h
+              | panic p => simp only [hr] at h; cases h
+              | ok body =>
+                simp only [hr] at h
+                split at h
+                · cases h
+                · rename_i hne
+                  cases h
+                  exact FromCand.nested hc hst.1 hst.2 hr (by simpa using hne)
+            · cases h
+
+/-- **completeness of one candidate**: an accessible candidate of the same name yields nothing only
+when no slice copy applies, `castNode` refuses it (`castNode_none`), and it is not a pair of struct
+types with something to copy member by member -/
+theorem tryCand_none (rec : Node → Node → Outcome (List Stmt)) (lhs rhsStruct cand : Node) (warns w' : List String)
+    (hacc : ctx.accessible rhsStruct cand.objName = true)
+    (hname : ctx.opts.compareFieldName lhs.objName cand.objName = true)
+    (h : ctx.tryCand rec lhs rhsStruct warns cand = .ok (none, w')) :
+    (∃ w, ctx.castNode (lhs.exprType ctx.env) cand = .ok (none, w)) ∧
+    ((ctx.env.isSliceType (lhs.exprType ctx.env) && ctx.env.isSliceType (cand.exprType ctx.env)) = true →
+        ctx.sliceToSlice lhs cand = .ok none) ∧
+    ((ctx.env.isStructType (lhs.exprType ctx.env) && ctx.env.isStructType (cand.exprType ctx.env)) = true →
+        rec lhs cand = .ok []) := by
+  unfold BCtx.tryCand at h
+  simp only [bind, Outcome.bind, pure, hacc, hname, Bool.not_true, Bool.or_self, Bool.false_eq_true, ↓reduceIte] at h
+  cases hsl : (if ctx.env.isSliceType (lhs.exprType ctx.env) && ctx.env.isSliceType (cand.exprType ctx.env)
+      then ctx.sliceToSlice lhs cand else Outcome.ok none) with
+  | error e => simp only [hsl] at h; cases h
+  | panic p => simp only [hsl] at h; cases h
+  | ok sl =>
+    simp only [hsl] at h
+    cases sl with
+    | some s0 => simp only at h; cases h
+    | none =>
+      simp only at h
+      have hslice : (ctx.env.isSliceType (lhs.exprType ctx.env) && ctx.env.isSliceType (cand.exprType ctx.env)) = true →
+          ctx.sliceToSlice lhs cand = .ok none := by
+        intro hb; simpa [hb] using hsl
+      cases hc : ctx.castNode (lhs.exprType ctx.env) cand with
+      | error e => simp only [hc] at h; cases h
+      | panic p => simp only [hc] at h; cases h
+      | ok r =>
+        obtain ⟨c?, w⟩ := r
+        simp only [hc] at h
+        cases c? with
+        | some c => simp only at h; cases h
+        | none =>
+          simp only at h
+          refine ⟨⟨w, rfl⟩, hslice, ?_⟩
+          intro hst
+          simp only [hst, ↓reduceIte] at h
+          cases hr : rec lhs cand with
+          | error e => simp only [hr] at h; cases h
+          | panic p => simp only [hr] at h; cases h
+          | ok body =>
+            simp only [hr] at h
+            split at h
+            · rename_i hemp
+              have : body = [] := by simpa using hemp
+              rw [this]
+            · cases h
+
+/-! ## the search over the candidates -/
+
+/-- the candidate list follows the options: nothing unless the rule is `:match name`; getters only
+under `:getter`, and before the fields -/
+theorem candidates_none (rhsStruct : Node) (hr : ctx.opts.rule ≠ .name) : ctx.candidates rhsStruct = [] := by
+  unfold BCtx.candidates
   have hr' : (ctx.opts.rule == MatchRule.name) = false := by
     cases hrule : ctx.opts.rule <;> simp_all
-  simp only [hg, Bool.false_eq_true, ↓reduceIte, pure, bind, Outcome.bind, hr'] at h
-  unfold BCtx.noMatchAt at h
-  cases h; exact ⟨_, rfl⟩
+  simp [hr']
 
-/-! ### witnesses: what the code does where the statement wants more
+theorem candidates_name (rhsStruct : Node) (hr : ctx.opts.rule = .name) :
+    ctx.candidates rhsStruct =
+      (if ctx.opts.getter then
+        ((ctx.env.methodsOf (rhsStruct.exprType ctx.env)).filter ctx.env.compliesGetter).map
+          fun m => Node.method rhsStruct m.name m.results
+       else []) ++
+      ((ctx.env.fieldsOf (rhsStruct.exprType ctx.env)).map fun f => Node.field rhsStruct f.name f.ty) := by
+  unfold BCtx.candidates
+  simp [hr]
 
-* `:match none` does not stop the *getter* pass (DESIGN §5 #27).
-* with `:case:off` the first name-equal candidate ends the search even if a later one fits (#16).
+/-- no getter call is ever introduced without `:getter` -/
+theorem candidates_no_getter (rhsStruct : Node) (hg : ctx.opts.getter = false) :
+    ∀ c ∈ ctx.candidates rhsStruct, ∃ n t, c = .field rhsStruct n t := by
+  intro c hc
+  unfold BCtx.candidates at hc
+  simp only at hc
+  split at hc
+  · simp only [hg, Bool.false_eq_true, ↓reduceIte, List.nil_append, List.mem_map] at hc
+    obtain ⟨f, _, rfl⟩ := hc
+    exact ⟨_, _, rfl⟩
+  · cases hc
+
+/-- the fold over the candidates: once a statement is found the state no longer changes -/
+theorem fold_found (rec : Node → Node → Outcome (List Stmt)) (lhs rhsStruct : Node) (st : BCtx.Pass)
+    (hs : st.a.isSome = true) : ∀ cands, foldOutcome (ctx.handler rec lhs rhsStruct) st cands = .ok st := by
+  intro cands
+  induction cands with
+  | nil => rfl
+  | cons c cs ih => simp only [foldOutcome, BCtx.handler, hs, ↓reduceIte]; exact ih
+
+/-- **the search finds the first candidate that yields a statement.**  If the fold ends with a
+statement `s`, the candidate list splits into candidates that yielded nothing, the candidate that
+yielded `s`, and the rest (never tried); if it ends without, every candidate yielded nothing. -/
+theorem fold_first (rec : Node → Node → Outcome (List Stmt)) (lhs rhsStruct : Node) :
+    ∀ (cands : List Node) (st st' : BCtx.Pass), st.a = none →
+      foldOutcome (ctx.handler rec lhs rhsStruct) st cands = .ok st' →
+      (st'.a = none ∧ ∀ c ∈ cands, ∃ w w', ctx.tryCand rec lhs rhsStruct w c = .ok (none, w')) ∨
+      (∃ pre c post s w w', cands = pre ++ c :: post ∧ st'.a = some s ∧
+        (∀ c' ∈ pre, ∃ w1 w2, ctx.tryCand rec lhs rhsStruct w1 c' = .ok (none, w2)) ∧
+        ctx.tryCand rec lhs rhsStruct w c = .ok (some s, w')) := by
+  intro cands
+  induction cands with
+  | nil =>
+    intro st st' hst h
+    simp only [foldOutcome] at h
+    cases h
+    exact Or.inl ⟨hst, fun c hc => by cases hc⟩
+  | cons c cs ih =>
+    intro st st' hst h
+    simp only [foldOutcome] at h
+    cases hh : ctx.handler rec lhs rhsStruct st c with
+    | error e => simp only [hh] at h; cases h
+    | panic p => simp only [hh] at h; cases h
+    | ok st1 =>
+      simp only [hh] at h
+      unfold BCtx.handler at hh
+      simp only [hst, Option.isSome_none, Bool.false_eq_true, ↓reduceIte] at hh
+      cases ht : ctx.tryCand rec lhs rhsStruct st.warns c with
+      | error e => simp only [ht] at hh; cases hh
+      | panic p => simp only [ht] at hh; cases hh
+      | ok r =>
+        obtain ⟨a, w⟩ := r
+        simp only [ht] at hh
+        cases hh
+        cases a with
+        | none =>
+          rcases ih { a := none, warns := w } st' rfl h with ⟨hn, hall⟩ | ⟨pre, c0, post, s, w1, w2, hsplit, hs, hpre, hc0⟩
+          · refine Or.inl ⟨hn, ?_⟩
+            intro c' hc'
+            rcases List.mem_cons.mp hc' with rfl | hc'
+            · exact ⟨_, _, ht⟩
+            · exact hall c' hc'
+          · refine Or.inr ⟨c :: pre, c0, post, s, w1, w2, by simp [hsplit], hs, ?_, hc0⟩
+            intro c' hc'
+            rcases List.mem_cons.mp hc' with rfl | hc'
+            · exact ⟨_, _, ht⟩
+            · exact hpre c' hc'
+        | some s =>
+          have := fold_found ctx rec lhs rhsStruct { a := some s, warns := w } rfl cs
+          rw [this] at h
+          cases h
+          exact Or.inr ⟨[], c, cs, s, _, _, rfl, rfl, (fun c' hc' => by cases hc'), ht⟩
+
+/-- **T4.1 (the default matcher, both directions).**  Whatever `structFieldAndStructGettersAndFields`
+returns for a destination member is either
+* `no match` — and then *every* candidate (getters under `:getter`, then fields; none at all under
+  `:match none`) yielded nothing: wrong name, inaccessible, or refused on type grounds
+  (`tryCand_ignores_other_names`, `tryCand_none`); or
+* the statement made from the *first* candidate in that order that yields one
+  (`tryCand_some`: accessible, same name under the case rule, type-compatible after only opted-in
+  conversions, or a struct pair copied member by member). -/
+theorem fieldDefault_spec (rec : Node → Node → Outcome (List Stmt)) (lhs rhsStruct : Node) (s : Stmt)
+    (h : ctx.fieldDefault rec lhs rhsStruct = .ok s) :
+    ((∃ w, s = .noMatch lhs w) ∧
+        ∀ c ∈ ctx.candidates rhsStruct, ∃ w w', ctx.tryCand rec lhs rhsStruct w c = .ok (none, w')) ∨
+    (∃ pre c post w w', ctx.candidates rhsStruct = pre ++ c :: post ∧
+        (∀ c' ∈ pre, ∃ w1 w2, ctx.tryCand rec lhs rhsStruct w1 c' = .ok (none, w2)) ∧
+        ctx.tryCand rec lhs rhsStruct w c = .ok (some s, w')) := by
+  unfold BCtx.fieldDefault at h
+  simp only [bind, Outcome.bind, pure] at h
+  cases hf : foldOutcome (ctx.handler rec lhs rhsStruct) {} (ctx.candidates rhsStruct) with
+  | error e => simp only [hf] at h; cases h
+  | panic p => simp only [hf] at h; cases h
+  | ok st =>
+    simp only [hf] at h
+    rcases fold_first ctx rec lhs rhsStruct _ {} st rfl hf with ⟨hn, hall⟩ | ⟨pre, c, post, s', w, w', hsplit, hs, hpre, hc⟩
+    · simp only [hn] at h
+      unfold BCtx.noMatchAt at h
+      cases h
+      exact Or.inl ⟨⟨_, rfl⟩, hall⟩
+    · simp only [hs] at h
+      cases h
+      exact Or.inr ⟨pre, c, post, w, w', hsplit, hpre, hc⟩
+
+/-- **T4.3.** With `:match none` nothing is matched by name — getters included: the member is
+reported `no match`. -/
+theorem match_none_no_name_match (rec : Node → Node → Outcome (List Stmt)) (lhs rhsStruct : Node) (s : Stmt)
+    (hr : ctx.opts.rule ≠ .name) (h : ctx.fieldDefault rec lhs rhsStruct = .ok s) : ∃ w, s = .noMatch lhs w := by
+  rcases fieldDefault_spec ctx rec lhs rhsStruct s h with ⟨hn, _⟩ | ⟨pre, c, post, w, w', hsplit, _, _⟩
+  · exact hn
+  · rw [candidates_none ctx rhsStruct hr] at hsplit
+    cases pre <;> cases hsplit
+
+/-! ### the two former deviations, now repaired in reedom/convergen (known_findings: fixed)
+
+* `:match none` did not stop the *getter* pass (DESIGN §5 #27);
+* with `:case:off` the first name-equal candidate ended the search even if a later one fits (#16).
+The examples below are the former witnesses, now showing the repaired behaviour.
 -/
 
 def intTy : TyInfo := { kind := .basic, str := "int", name := "int" }
@@ -144,8 +426,8 @@ def bodyText (env : Env) (r : Outcome (List Stmt)) : String :=
 
 def caseOff : BCtx := { env := envCase, eng := noEng, methodPos := "f.go:1:1", opts := { exactCase := false } }
 
-/-- witness (#16): `Id int` would fit `id int`, but the search stops at `ID string` -/
-example : bodyText envCase (caseOff.structToStruct 3 (.root "dst" 3) (.root "src" 2) []) = "// no match: dst.id\n" := by
+/-- (#16, repaired): `ID string` does not fit `id int`, the search goes on to `Id int` -/
+example : bodyText envCase (caseOff.structToStruct 3 (.root "dst" 3) (.root "src" 2) []) = "dst.id = src.Id\n" := by
   decide
 
 /-- non-vacuity: with the exact-case rule and a same-named field the assignment is made -/
